@@ -245,9 +245,9 @@ def cover_tests(ctx, spec_listed):
     """transition cover: TLC-computed shortest prefix per abstract parser state x one token x {'', 'x'}"""
     q = ctx.quick
     jobs = []
-    plans = [("cover", "doc", 3, T_CORE if q else t_all(), 0.08 if q else 1.0),
-             ("cover_afe", "doc", 4 if q else 5, T_FMT, 0.2 if q else 1.0),
-             ("cover", "tableish", 2, T_CORE if q else t_all(), 0.05 if q else 0.5)]
+    plans = [("cover", "doc", 3, T_CORE if q else t_all(), 0.04 if q else 1.0),
+             ("cover_afe", "doc", 4 if q else 5, T_FMT, 0.06 if q else 1.0),
+             ("cover", "tableish", 2, T_CORE if q else t_all(), 0.03 if q else 0.5)]
     for theme, cont, n, toks, frac in plans:
         r = ctx.tlc("MC_TreeCover", cover_cfg(theme, cont, n, spec_listed), "cover-%s-%s" % (theme, cont), heap="16g")
         ctx.notes["cover_prefixes_%s_%s" % (theme, cont)] = len(r.records)
